@@ -1438,16 +1438,15 @@ FormatterToXML::writeNormalizedChars(
         }
         else if(isCData == true && c > m_maxCharacter)
         {
-            if(i != 0)
-            {
-                accumContent(s_dtdCDATACloseString, 0, s_dtdCDATACloseStringLength);
-            }
+            // Close the CDATA section, write the character as a
+            // character reference, and open a new section.
+            accumContent(s_dtdCDATACloseString, 0, s_dtdCDATACloseStringLength);
 
             // This needs to go into a function... 
             if (0xd800u <= unsigned(c) && unsigned(c) < 0xdc00) 
             {
                 // UTF-16 surrogate
-                XalanDOMChar    next = 0;
+                XalanUnicodeChar    next = 0;
 
                 if (i + 1 >= end) 
                 {
@@ -1459,10 +1458,11 @@ FormatterToXML::writeNormalizedChars(
 
                     if (!(0xdc00 <= next && next < 0xe000))
                     {
-                        throwInvalidUTF16SurrogateException(c, next, getMemoryManager());
+                        throwInvalidUTF16SurrogateException(c, static_cast<XalanDOMChar>(next),
+                                                            getMemoryManager());
                     }
 
-                    next = XalanDOMChar(((c - 0xd800) << 10) + next - 0xdc00 + 0x00010000);
+                    next = ((c - 0xd800) << 10) + next - 0xdc00 + 0x00010000;
                 }
 
                 writeNumberedEntityReference(next);
@@ -1472,19 +1472,16 @@ FormatterToXML::writeNormalizedChars(
                 writeNumberedEntityReference(c);
             }
 
-            if(i != 0 && i < end - 1)
-            {
-                // "<![CDATA["
-                accumContent(XalanUnicode::charLessThanSign);
-                accumContent(XalanUnicode::charExclamationMark);
-                accumContent(XalanUnicode::charLeftSquareBracket);
-                accumContent(XalanUnicode::charLetter_C);
-                accumContent(XalanUnicode::charLetter_D);
-                accumContent(XalanUnicode::charLetter_A);
-                accumContent(XalanUnicode::charLetter_T);
-                accumContent(XalanUnicode::charLetter_A);
-                accumContent(XalanUnicode::charLeftSquareBracket);
-            }
+            // "<![CDATA["
+            accumContent(XalanUnicode::charLessThanSign);
+            accumContent(XalanUnicode::charExclamationMark);
+            accumContent(XalanUnicode::charLeftSquareBracket);
+            accumContent(XalanUnicode::charLetter_C);
+            accumContent(XalanUnicode::charLetter_D);
+            accumContent(XalanUnicode::charLetter_A);
+            accumContent(XalanUnicode::charLetter_T);
+            accumContent(XalanUnicode::charLetter_A);
+            accumContent(XalanUnicode::charLeftSquareBracket);
         }
         else if(isCData == true &&
                 i < end - 2 &&
@@ -1694,8 +1691,7 @@ FormatterToXML::cdata(
 
             if(m_stripCData == false)
             {
-                if(length >= 1 &&
-                   ch[0] <= m_maxCharacter)
+                if(length >= 1)
                 {
                     // "<![CDATA["
                     accumContent(XalanUnicode::charLessThanSign);
@@ -1714,8 +1710,7 @@ FormatterToXML::cdata(
 
             if(m_stripCData == false)
             {
-                if(length >= 1 &&
-                   ch[length - 1] <= m_maxCharacter)
+                if(length >= 1)
                 {
                     accumContent(XalanUnicode::charRightSquareBracket);
                     accumContent(XalanUnicode::charRightSquareBracket);
